@@ -787,16 +787,6 @@ Section Correct.
   Qed.
 
   (* ------------------------------------------------------------ main theorem *)
-  (* the part of the fragment without loops and without `of` *)
-  Fixpoint frag1 (e : expr) : bool :=
-    match e with
-    | EBool _ | EInt _ | EFilesize | EVar _ | EGlobal _ | ERule _ => true
-    | ENot a | EDefined a | ENeg a | EBitNot a | ERead _ a | EOffset _ a | ELength _ a => frag1 a
-    | EAnd a b | EOr a b | EArith _ a b | ECmp _ a b | EPat _ _ a b | ECount _ _ a b | EWith _ a b => frag1 a && frag1 b
-    | EOf _ q _ ANone _ _ => frag1 q
-    | _ => false
-    end.
-
   Definition Ok (e : expr) : Prop :=
     forall g sp h F vars st t,
       tyof g sp e = Some t -> R g sp (env_of vars) st -> hspec host (h_code h) F ->
@@ -1184,6 +1174,824 @@ Section Correct.
   Lemma forallb_truthy_matched : forall ms, forallb truthy (map (fun m => VBool (matched m)) ms) = forallb matched ms.
   Proof. induction ms as [|m t IH]; [reflexivity|]. cbn [map forallb]. rewrite IH, truthy_vbool. reflexivity. Qed.
 
+  (* ================================================================ for..in *)
+  (* wp-style steps: to run the code and then [rest] it suffices to run [rest]
+     from the state the code leaves *)
+  Lemma set_stack_same : forall st, set_stack st (s_stack st) = st.
+  Proof. intros []. reflexivity. Qed.
+
+  Lemma load_run : forall slot z hh rest st o,
+    flags_wf st -> (slot < MAXV)%nat -> var_ok st slot TInt (VInt z) ->
+    bs rest (set_stack st (V64 z :: s_stack st)) o -> bs (load_var slot TInt hh ++ rest) st o.
+  Proof.
+    intros slot z hh rest st o W M [_ [Fl Wd]] H.
+    apply (load_var_defined host slot TInt hh rest st o W M Fl). rewrite Wd. exact H.
+  Qed.
+
+  Lemma set_var_run : forall slot code rest st st1 z o,
+    (forall r o', bs r st1 o' -> bs (code ++ r) (set_stack st (V32 (slot_addr slot) :: s_stack st)) o') ->
+    s_stack st1 = V64 z :: V32 (slot_addr slot) :: s_stack st ->
+    bs rest (store (set_stack st1 (s_stack st)) slot z) o ->
+    bs (set_var slot TInt code ++ rest) st o.
+  Proof.
+    intros slot code rest st st1 z o Hc S H. unfold set_var. cbn [width_of].
+    rewrite <- !app_assoc. cbn [app]. apply step_const. apply Hc.
+    apply (set_var_tail_int host slot rest st1 z (s_stack st) o S). exact H.
+  Qed.
+
+  Lemma incr_run : forall slot z hh rest st o,
+    flags_wf st -> (slot < MAXV)%nat -> var_ok st slot TInt (VInt z) ->
+    bs rest (store st slot (w64 (z + 1))) o -> bs (incr_var slot hh ++ rest) st o.
+  Proof.
+    intros slot z hh rest st o W M OK H. unfold incr_var.
+    eapply (set_var_run slot _ rest st
+              (set_stack st (V64 (w64 (z + 1)) :: V32 (slot_addr slot) :: s_stack st)) (w64 (z + 1))).
+    - intros r o' Hr. rewrite <- app_assoc.
+      apply (load_run slot z hh _ (set_stack st (V32 (slot_addr slot) :: s_stack st)) o'); [exact W | exact M | exact OK |].
+      cbn [app set_stack s_stack]. apply step_const.
+      eapply step_bin; [reflexivity | reflexivity |]. exact Hr.
+    - reflexivity.
+    - destruct st. exact H.
+  Qed.
+
+  (* the code of `for <quantifier> x in (lo..hi) : (body)` by name *)
+  Definition incr_rep (sp : nat) (hh : handler) (lbl : nat) : list instr :=
+    incr_var (sp + 5) hh ++ incr_var (S sp) hh ++ load_var (S sp) TInt hh ++ load_var sp TInt hh ++ [IBin I64LtS; IBrIf lbl].
+  Definition loop_arm (sp : nat) (h : handler) (qk : qkind) : list instr :=
+    let h2 := deeper (deeper h) in let h3 := deeper h2 in
+    match qk with
+    | QNone => [IIf 1%nat [IConst (V32 0); IBr 2%nat] (incr_rep sp h3 1%nat ++ [IConst (V32 1); IBr 2])]
+    | QAll => [IIf 1 (incr_rep sp h3 1%nat ++ [IConst (V32 1); IBr 2]) [IConst (V32 0); IBr 2]]
+    | QAny => [IIf 1 [IConst (V32 1); IBr 2] (incr_rep sp h3 1%nat ++ [IConst (V32 0); IBr 2])]
+    | _ =>
+        [IIf 0
+           (incr_var (S (S (S sp))) h3 ++ load_var (S (S (S sp))) TInt h3 ++ load_var (S (S sp)) TInt h3 ++
+            [IBin EmitFacts.for_expr_reached;
+             IIf 0 (load_var (S (S sp)) TInt (deeper h3) ++ [IConst (V64 0); IBin EmitFacts.for_expr_exit_value; IBr 3]) []])
+           []]
+        ++ incr_rep sp h2 0%nat
+        ++ load_var (S (S sp)) TInt h2 ++ [IUn I64Eqz]
+    end.
+  Definition loop_body (g : cenv) (sp : nat) (h : handler) (qk : qkind) (x : nat) (body : expr) : list instr :=
+    catch_undef 1 (fun h' => emit_bool ((x, ((sp + 5)%nat, TInt)) :: g) (sp + FOR_IN_FRAME) h' body) [IConst (V32 0)]
+    ++ loop_arm sp h qk.
+  Definition loop_init (g : cenv) (sp : nat) (h : handler) (qk : qkind) (q lo hi : expr) : list instr :=
+    let h1 := deeper h in
+    set_var sp TInt
+      (catch_undef 1
+         (fun h' => emit g sp h' hi ++ emit g sp h' lo ++ [ILocalTee tmpA; IBin I64Sub; IConst (V64 1); IBin I64Add])
+         [IConst (V64 0)])
+    ++ load_var sp TInt h1 ++ [IConst (V64 0); IBin I64LeS; IIf 0 [IConst (V32 0); IBr 1] []]
+    ++ set_var (sp + 5) TInt [ILocalGet tmpA]
+    ++ set_var (S sp) TInt [IConst (V64 0)]
+    ++ (match qk with
+        | QExpr => set_var (S (S sp)) TInt (emit g sp h1 q) ++ set_var (S (S (S sp))) TInt [IConst (V64 0)]
+        | _ => []
+        end).
+  Lemma emit_for_eq : forall g sp h qk q x lo hi body,
+    emit g sp h (EForRange qk q x lo hi body)
+    = [IBlock 1 (loop_init g sp h qk q lo hi ++ [ILoop 1 (loop_body g sp h qk x body)])].
+  Proof.
+    intros. cbn [emit]. unfold loop_init, loop_body, loop_arm, incr_rep. rewrite <- !app_assoc.
+    destruct qk; reflexivity.
+  Qed.
+
+  Lemma frame7 : FOR_IN_FRAME = 7%nat.
+  Proof. reflexivity. Qed.
+  Lemma stack_nil_same : forall st, s_stack st = [] -> set_stack st [] = st.
+  Proof. intros [] H. cbn in *. subst. reflexivity. Qed.
+
+  Definition zfrom (k : Z) (n : nat) : list Z := map (fun j => k + Z.of_nat j) (seq 0 n).
+  Lemma zfrom_S : forall k n, zfrom k (S n) = k :: zfrom (k + 1) n.
+  Proof.
+    intros k n. unfold zfrom. cbn [seq map]. rewrite Z.add_0_r. f_equal.
+    rewrite <- seq_shift, map_map. apply map_ext. intros j. lia.
+  Qed.
+  Lemma zseq_zfrom : forall n, zseq n = zfrom 0 (Z.to_nat n).
+  Proof. intros n. unfold zseq, zfrom. apply map_ext. intros j. reflexivity. Qed.
+
+  Lemma range_item_next : forall l k, 0 <= k -> w64 (range_item l k + 1) = range_item l (k + 1).
+  Proof.
+    intros l k Hk. unfold range_item.
+    replace (k + 1 =? 0) with false by (symmetry; apply Z.eqb_neq; lia).
+    destruct (k =? 0) eqn:E.
+    - apply Z.eqb_eq in E. subst k. rewrite w64_wrap64. reflexivity.
+    - rewrite <- (w64_wrap64 (l + k)), <- (w64_wrap64 (l + (k + 1))), w64_succ. f_equal. lia.
+  Qed.
+
+  (* what one turn of the loop decides: leave with a value, go round again with
+     a new count, or (the arm of <expr>) fall out of the loop with a value *)
+  Inductive turn := Exit (v : bool) | Again (c : Z) | Fall (v : bool).
+  Definition arm_step (qk : qkind) (M c : Z) (b more : bool) : turn :=
+    match qk with
+    | QNone => if b then Exit false else if more then Again c else Exit true
+    | QAll => if b then (if more then Again c else Exit true) else Exit false
+    | QAny => if b then Exit true else if more then Again c else Exit false
+    | _ =>
+        if b && (M <=? c + 1) then Exit (negb (M =? 0))
+        else if more then Again (if b then c + 1 else c) else Fall (M =? 0)
+    end.
+  Lemma loop_q_step : forall qk M c v rest, qk <> QPct ->
+    loop_q qk M c false (v :: rest)
+    = match arm_step qk M c (truthy v) (match rest with [] => false | _ => true end) with
+      | Exit z | Fall z => VBool z
+      | Again c' => loop_q qk M c' false rest
+      end.
+  Proof.
+    intros qk M c v rest Hq. cbn [loop_q andb]. unfold arm_step.
+    destruct qk; try contradiction; destruct (truthy v); destruct rest; cbn [loop_q andb]; try reflexivity.
+    - destruct (M <=? c + 1); reflexivity.
+    - destruct (M <=? c + 1); reflexivity.
+  Qed.
+
+  Section Loop.
+    Variables (cg : cenv) (sp : nat) (vars : list (nat * value)) (x : nat) (body : expr) (qk : qkind) (h : handler).
+    Variables (l N M : Z).
+    Let g' : cenv := (x, ((sp + 5)%nat, TInt)) :: cg.
+    Let sp' : nat := (sp + FOR_IN_FRAME)%nat.
+    Hypothesis Hfit : (sp + FOR_IN_FRAME <= MAXV)%nat.
+    Hypothesis Tbody : tyof g' sp' body = Some TBool.
+    Hypothesis OkBody : Ok body.
+    Hypothesis HN : 0 < N < m63.
+    Hypothesis Hqk : qk <> QPct.
+
+    Definition fbody (k : Z) : value := eval (env_of ((x, VInt (range_item l k)) :: vars)) body.
+
+    (* the bookkeeping variables of the loop: n, i, the loop variable, and for
+       the arm of <expr> max_count and count *)
+    Definition Fr (k c : Z) (st : state) : Prop :=
+      flags_wf st /\
+      var_ok st sp TInt (VInt N) /\ var_ok st (S sp) TInt (VInt k) /\
+      var_ok st (sp + 5)%nat TInt (VInt (range_item l k)) /\
+      (qk = QExpr -> var_ok st (S (S sp)) TInt (VInt M) /\ var_ok st (S (S (S sp))) TInt (VInt c)).
+
+    Lemma Fr_keeps : forall k c st st', keeps sp' st st' -> Fr k c st -> Fr k c st'.
+    Proof.
+      intros k c st st' K [W [A [B [C D]]]]. unfold sp' in K. rewrite frame7 in K.
+      assert (P : forall s t v, (s < sp + 7)%nat -> var_ok st s t v -> var_ok st' s t v)
+        by (intros s t v Hs OK; eapply keeps_var_ok; [exact K | exact Hs | exact OK]).
+      split; [eapply keeps_wf; eassumption|].
+      split; [apply P; [lia | exact A]|]. split; [apply P; [lia | exact B]|]. split; [apply P; [lia | exact C]|].
+      intros E. destruct (D E) as [D1 D2]. split; apply P; try lia; assumption.
+    Qed.
+
+    Lemma body_run : forall k c st,
+      R cg sp (env_of vars) st -> Fr k c st -> s_stack st = [] ->
+      exists st1, keeps sp' st st1 /\ s_stack st1 = [V32 (b2z (truthy (fbody k)))] /\
+        forall rest o, bs rest st1 o ->
+          bs (catch_undef 1 (fun h' => emit_bool g' sp' h' body) [IConst (V32 0)] ++ rest) st o.
+    Proof.
+      intros k c st HR [W [A [B [C D]]]] S.
+      assert (HRb : R g' sp' (env_of ((x, VInt (range_item l k)) :: vars)) (set_stack st [])).
+      { change (env_of ((x, VInt (range_item l k)) :: vars)) with (bind x (VInt (range_item l k)) (env_of vars)).
+        unfold g', sp'. rewrite frame7 in *.
+        apply (R_bind_at cg sp (sp + 7)%nat (sp + 5)%nat); [eapply R_keeps; [exact HR | apply keeps_stack] | lia | lia | exact Hfit | exact C]. }
+      destruct (OkBody g' sp' h0 F0 _ _ TBool Tbody HRb hspec_h0) as [Tv Hc]. cbn [set_stack s_stack] in Hc.
+      fold (fbody k) in Tv, Hc.
+      pose proof (c_block_catch sp' h0 F0 st _ _ (eq_rect _ (fun c0 => computes sp' h0 F0 [] c0 (fbody k) (set_stack st [])) Hc _ (eq_sym (emit_bool_bool _ _ _ _ Tbody)))) as Blk.
+      rewrite (or_false_bool _ Tv) in Blk. destruct Blk as [Dd _].
+      destruct (Dd ltac:(discriminate)) as [st1 [K [S1 C1]]].
+      exists st1. split; [exact K|]. split; [rewrite S1, S; reflexivity|].
+      intros rest o Hr. unfold catch_undef. fold h0. cbn [app]. exact (C1 rest o Hr).
+    Qed.
+    (* Fr after a write to one of the frame's slots *)
+    Lemma Fr_slots : (sp + 7 <= MAXV)%nat.
+    Proof. rewrite <- frame7. exact Hfit. Qed.
+
+    (* incr item; incr i; i < n ? repeat : go on *)
+    Lemma incr_rep_run : forall hh lbl k c st,
+      Fr k c st -> 0 <= k < N ->
+      exists st2, keeps sp st st2 /\ Fr (k + 1) c st2 /\ s_stack st2 = s_stack st /\
+        (k + 1 < N -> forall rest, bs (incr_rep sp hh lbl ++ rest) st (OBranch lbl st2)) /\
+        (N <= k + 1 -> forall rest o, bs rest st2 o -> bs (incr_rep sp hh lbl ++ rest) st o).
+    Proof.
+      intros hh lbl k c st [W [A [B [C D]]]] Hk. pose proof Fr_slots as FS.
+      set (sA := store st (sp + 5)%nat (w64 (range_item l k + 1))).
+      set (sB := store sA (S sp) (w64 (k + 1))).
+      assert (UA : upd (sp + 5)%nat st sA) by (apply upd_store; lia).
+      assert (UB : upd (S sp) sA sB) by (apply upd_store; lia).
+      assert (WA : flags_wf sA) by (eapply upd_wf; eassumption).
+      assert (WB : flags_wf sB) by (eapply upd_wf; eassumption).
+      assert (BA : var_ok sA (S sp) TInt (VInt k)) by (eapply upd_var_ok; [exact UA | lia | lia | exact B]).
+      assert (Ek : w64 (k + 1) = k + 1) by (apply w64_small; unfold m63 in *; lia).
+      assert (FrB : Fr (k + 1) c sB).
+      { split; [exact WB|].
+        split; [eapply upd_var_ok; [exact UB | lia | lia |]; eapply upd_var_ok; [exact UA | lia | lia | exact A]|].
+        split; [rewrite <- Ek; apply var_ok_store; lia|].
+        split; [eapply upd_var_ok; [exact UB | lia | lia |]; rewrite <- range_item_next by lia; apply var_ok_store; lia|].
+        intros E. destruct (D E) as [D1 D2].
+        split; (eapply upd_var_ok; [exact UB | lia | lia |]; eapply upd_var_ok; [exact UA | lia | lia | assumption]). }
+      exists sB. split; [|split; [exact FrB | split; [reflexivity|]]].
+      - eapply keeps_trans; [eapply (upd_keeps sp); [exact UA | lia | lia] | eapply (upd_keeps sp); [exact UB | lia | lia]].
+      - assert (RUN : forall tail o, bs tail (set_stack sB (V32 (b2z (k + 1 <? N)) :: s_stack st)) o ->
+                  bs (incr_var (sp + 5) hh ++ incr_var (S sp) hh ++ load_var (S sp) TInt hh ++ load_var sp TInt hh ++ IBin I64LtS :: tail) st o).
+        { intros tail o H.
+          apply (incr_run (sp + 5)%nat _ hh _ st o W ltac:(lia) C). fold sA.
+          apply (incr_run (S sp) _ hh _ sA o WA ltac:(lia) BA). fold sB.
+          destruct FrB as [_ [A' [B' _]]].
+          apply (load_run (S sp) _ hh _ sB o WB ltac:(lia) B').
+          apply (load_run sp N hh _ _ o); [exact WB | lia | exact A' |].
+          cbn [set_stack s_stack]. eapply step_bin; [reflexivity | reflexivity |].
+          cbn [set_stack s_stack]. destruct st; exact H. }
+        split.
+        + intros Hlt rest. unfold incr_rep. rewrite <- !app_assoc. cbn [app]. apply RUN.
+          replace (k + 1 <? N) with true by (symmetry; apply Z.ltb_lt; exact Hlt).
+          replace sB with (set_stack (set_stack sB (V32 (b2z true) :: s_stack st)) (s_stack st)) at 2 by (destruct st; reflexivity).
+          eapply BBrIfYes; [reflexivity | discriminate].
+        + intros Hge rest o H. unfold incr_rep. rewrite <- !app_assoc. cbn [app]. apply RUN.
+          replace (k + 1 <? N) with false by (symmetry; apply Z.ltb_ge; exact Hge).
+          eapply BBrIfNo; [reflexivity | reflexivity |]. destruct st; exact H.
+    Qed.
+
+    Lemma b2z_eqb0 : forall b, (b2z b =? 0) = negb b.
+    Proof. intros [|]; reflexivity. Qed.
+
+    (* the branch that ends the loop with a constant *)
+    Lemma exit_const : forall v st, bs [IConst (V32 v); IBr 2] st (OBranch 2 (set_stack st (V32 v :: s_stack st))).
+    Proof. intros v st. apply step_const. apply BBr. Qed.
+
+    (* the branch `incr; repeat or leave with v` of the arms none / all / any *)
+    Lemma repeat_or_exit : forall hh k c v s0,
+      Fr k c s0 -> s_stack s0 = [] -> 0 <= k < N ->
+      if k + 1 <? N
+      then exists st2, keeps sp s0 st2 /\ Fr (k + 1) c st2 /\ s_stack st2 = [] /\
+             bs (incr_rep sp hh 1 ++ [IConst (V32 v); IBr 2]) s0 (OBranch 1 st2)
+      else exists stx, keeps sp s0 stx /\ s_stack stx = [V32 v] /\
+             bs (incr_rep sp hh 1 ++ [IConst (V32 v); IBr 2]) s0 (OBranch 2 stx).
+    Proof.
+      intros hh k c v s0 F0' S0 Hk.
+      destruct (incr_rep_run hh 1%nat k c s0 F0' Hk) as [st2 [K [F2 [S2 [Hm Hn]]]]].
+      destruct (k + 1 <? N) eqn:E.
+      - apply Z.ltb_lt in E. exists st2. split; [exact K|]. split; [exact F2|]. split; [congruence|]. apply Hm. exact E.
+      - apply Z.ltb_ge in E. exists (set_stack st2 (V32 v :: s_stack st2)).
+        split; [eapply keeps_trans; [exact K | apply keeps_stack]|]. split; [cbn [set_stack s_stack]; congruence|].
+        apply Hn; [exact E | apply exit_const].
+    Qed.
+
+    Lemma Fr_stack : forall k c st s, Fr k c st -> Fr k c (set_stack st s).
+    Proof. intros k c st s H. exact H. Qed.
+
+    Lemma arm_run : forall k c st1 b,
+      Fr k c st1 -> s_stack st1 = [V32 (b2z b)] -> 0 <= k < N -> 0 <= c <= k ->
+      match arm_step qk M c b (k + 1 <? N) with
+      | Exit v => exists stx, keeps sp st1 stx /\ s_stack stx = [V32 (b2z v)] /\ bs (loop_arm sp h qk) st1 (OBranch 1 stx)
+      | Again c' => exists st2, keeps sp st1 st2 /\ Fr (k + 1) c' st2 /\ s_stack st2 = [] /\
+                                0 <= c' <= k + 1 /\ bs (loop_arm sp h qk) st1 (OBranch 0 st2)
+      | Fall v => exists stx, keeps sp st1 stx /\ s_stack stx = [V32 (b2z v)] /\ bs (loop_arm sp h qk) st1 (ONormal stx)
+      end.
+    Proof.
+      intros k c st1 b F1' S1 Hk Hc. pose proof Fr_slots as FS.
+      set (s0 := set_stack st1 []).
+      assert (F0' : Fr k c s0) by exact F1'.
+      assert (K0 : keeps sp st1 s0) by apply keeps_stack.
+      (* the arms none / all / any: one if_else *)
+      assert (SIMPLE : forall (vexit vend : bool) (rep_on : bool) TH EL,
+                (if rep_on then TH else EL) = incr_rep sp (deeper (deeper (deeper h))) 1 ++ [IConst (V32 (b2z vend)); IBr 2] ->
+                (if rep_on then EL else TH) = [IConst (V32 (b2z vexit)); IBr 2] ->
+                match (if Bool.eqb b rep_on then (if k + 1 <? N then Again c else Exit vend) else Exit vexit) with
+                | Exit v => exists stx, keeps sp st1 stx /\ s_stack stx = [V32 (b2z v)] /\ bs [IIf 1 TH EL] st1 (OBranch 1 stx)
+                | Again c' => exists st2, keeps sp st1 st2 /\ Fr (k + 1) c' st2 /\ s_stack st2 = [] /\
+                                          0 <= c' <= k + 1 /\ bs [IIf 1 TH EL] st1 (OBranch 0 st2)
+                | Fall v => True
+                end).
+      { intros vexit vend rep_on TH EL Hrep Hexit.
+        assert (BR : (if b2z b =? 0 then EL else TH) = if Bool.eqb b rep_on then (if rep_on then TH else EL) else (if rep_on then EL else TH))
+          by (rewrite b2z_eqb0; destruct b, rep_on; reflexivity).
+        destruct (Bool.eqb b rep_on).
+        - rewrite Hrep in BR.
+          pose proof (repeat_or_exit (deeper (deeper (deeper h))) k c (b2z vend) s0 F0' eq_refl Hk) as RE.
+          destruct (k + 1 <? N).
+          + destruct RE as [st2 [K [F2 [S2 B2]]]]. exists st2.
+            split; [exact (keeps_trans _ _ _ _ K0 K)|]. split; [exact F2|]. split; [exact S2|]. split; [lia|].
+            eapply step_if; [exact S1 | rewrite BR; exact B2 |]. cbn [close]. apply seq_branch.
+          + destruct RE as [stx [K [Sx Bx]]]. exists stx.
+            split; [exact (keeps_trans _ _ _ _ K0 K)|]. split; [exact Sx|].
+            eapply step_if; [exact S1 | rewrite BR; exact Bx |]. cbn [close]. apply seq_branch.
+        - rewrite Hexit in BR. exists (set_stack s0 (V32 (b2z vexit) :: s_stack s0)).
+          split; [eapply keeps_trans; [exact K0 | apply keeps_stack]|]. split; [reflexivity|].
+          eapply step_if; [exact S1 | rewrite BR; apply exit_const |]. cbn [close]. apply seq_branch. }
+      unfold arm_step, loop_arm. destruct qk eqn:Eq; try (exfalso; apply Hqk; reflexivity).
+      - (* none *) pose proof (SIMPLE false true false _ _ eq_refl eq_refl) as P. destruct b; cbn [Bool.eqb] in P; destruct (k + 1 <? N); exact P.
+      - (* any *) pose proof (SIMPLE true false false _ _ eq_refl eq_refl) as P. destruct b; cbn [Bool.eqb] in P; destruct (k + 1 <? N); exact P.
+      - (* all *) pose proof (SIMPLE false true true _ _ eq_refl eq_refl) as P. destruct b; cbn [Bool.eqb] in P; destruct (k + 1 <? N); exact P.
+      - (* <expr> *)
+        destruct F1' as [W1 [A1 [B1 [C1 D1]]]]. destruct (D1 Eq) as [DM DC].
+        clear SIMPLE.
+        (* after the if_else: count is c' and the stack is empty, or the loop has been left *)
+        assert (PART1 : (b && (M <=? c + 1) = true ->
+                           exists stx, keeps sp st1 stx /\ s_stack stx = [V32 (b2z (negb (M =? 0)))] /\
+                             forall tail, bs (IIf 0
+                               (incr_var (S (S (S sp))) (deeper (deeper (deeper h))) ++ load_var (S (S (S sp))) TInt (deeper (deeper (deeper h))) ++
+                                load_var (S (S sp)) TInt (deeper (deeper (deeper h))) ++
+                                [IBin EmitFacts.for_expr_reached;
+                                 IIf 0 (load_var (S (S sp)) TInt (deeper (deeper (deeper (deeper h)))) ++
+                                        [IConst (V64 0); IBin EmitFacts.for_expr_exit_value; IBr 3]) []]) [] :: tail) st1 (OBranch 1 stx)) /\
+                        (b && (M <=? c + 1) = false ->
+                           exists sC, keeps sp st1 sC /\ Fr k (if b then c + 1 else c) sC /\ s_stack sC = [] /\
+                             forall tail o, bs tail sC o -> bs (IIf 0
+                               (incr_var (S (S (S sp))) (deeper (deeper (deeper h))) ++ load_var (S (S (S sp))) TInt (deeper (deeper (deeper h))) ++
+                                load_var (S (S sp)) TInt (deeper (deeper (deeper h))) ++
+                                [IBin EmitFacts.for_expr_reached;
+                                 IIf 0 (load_var (S (S sp)) TInt (deeper (deeper (deeper (deeper h)))) ++
+                                        [IConst (V64 0); IBin EmitFacts.for_expr_exit_value; IBr 3]) []]) [] :: tail) st1 o)).
+        { set (h3 := deeper (deeper (deeper h))).
+          destruct b.
+          - (* the body was true: count it *)
+            set (sC := store s0 (S (S (S sp))) (w64 (c + 1))).
+            assert (UC : upd (S (S (S sp))) s0 sC) by (apply upd_store; lia).
+            assert (WC : flags_wf sC) by (eapply upd_wf; [exact UC | exact W1]).
+            assert (Ec : w64 (c + 1) = c + 1) by (apply w64_small; unfold m63 in *; lia).
+            assert (FC : Fr k (c + 1) sC).
+            { split; [exact WC|].
+              split; [eapply upd_var_ok; [exact UC | lia | lia | exact A1]|].
+              split; [eapply upd_var_ok; [exact UC | lia | lia | exact B1]|].
+              split; [eapply upd_var_ok; [exact UC | lia | lia | exact C1]|].
+              intros _. split; [eapply upd_var_ok; [exact UC | lia | lia | exact DM] | rewrite <- Ec; apply var_ok_store; lia]. }
+            destruct FC as [_ [_ [_ [_ DD]]]]. destruct (DD Eq) as [DM' DC'].
+            assert (FC : Fr k (c + 1) sC).
+            { split; [exact WC|].
+              split; [eapply upd_var_ok; [exact UC | lia | lia | exact A1]|].
+              split; [eapply upd_var_ok; [exact UC | lia | lia | exact B1]|].
+              split; [eapply upd_var_ok; [exact UC | lia | lia | exact C1]|].
+              intros _. split; assumption. }
+            (* the code of the then branch up to the comparison *)
+            assert (RUN : forall tail o, bs tail (set_stack sC [V32 (b2z (M <=? c + 1))]) o ->
+                      bs (incr_var (S (S (S sp))) h3 ++ load_var (S (S (S sp))) TInt h3 ++ load_var (S (S sp)) TInt h3 ++
+                          IBin EmitFacts.for_expr_reached :: tail) s0 o).
+            { intros tail o H.
+              apply (incr_run (S (S (S sp))) c h3 _ s0 o W1 ltac:(lia) DC). fold sC.
+              apply (load_run (S (S (S sp))) _ h3 _ sC o WC ltac:(lia) DC').
+              apply (load_run (S (S sp)) M h3 _ _ o); [exact WC | lia | exact DM' |].
+              cbn [set_stack s_stack]. eapply step_bin; [reflexivity | reflexivity |]. exact H. }
+            cbn [andb]. split.
+            + intros Hr. exists (set_stack sC [V32 (b2z (negb (M =? 0)))]).
+              split; [eapply keeps_trans; [exact K0|]; eapply keeps_trans; [eapply (upd_keeps sp); [exact UC | lia | lia] | apply keeps_stack]|].
+              split; [reflexivity|]. intros tail.
+              eapply step_if; [exact S1 | cbn [b2z Z.eqb] | ].
+              * apply RUN. rewrite Hr.
+                eapply step_if; [reflexivity | cbn [b2z Z.eqb] | ].
+                -- apply (load_run (S (S sp)) M _ _ _ _ WC ltac:(lia) DM').
+                   cbn [set_stack s_stack app]. apply step_const.
+                   eapply step_bin; [reflexivity | reflexivity |]. cbn [set_stack s_stack]. apply BBr.
+                -- cbn [close]. apply seq_branch.
+              * cbn [close]. apply seq_branch.
+            + intros Hr. exists sC.
+              split; [eapply keeps_trans; [exact K0|]; eapply (upd_keeps sp); [exact UC | lia | lia]|].
+              split; [exact FC|]. split; [reflexivity|]. intros tail o H.
+              eapply step_if; [exact S1 | cbn [b2z Z.eqb] | ].
+              * apply RUN. rewrite Hr.
+                eapply step_if; [reflexivity | cbn [b2z Z.eqb]; apply BNil | ].
+                cbn [close leave take_top Nat.leb firstn app set_stack s_stack]. apply seq_normal. apply BNil.
+              * cbn [close leave take_top Nat.leb firstn app set_stack s_stack]. apply seq_normal.
+                destruct st1; exact H.
+          - cbn [andb]. split; [discriminate|]. intros _. exists s0.
+            split; [exact K0|]. split; [exact F0'|]. split; [reflexivity|]. intros tail o H.
+            eapply step_if; [exact S1 | cbn [b2z Z.eqb]; apply BNil |].
+            cbn [close leave take_top Nat.leb firstn app set_stack s_stack]. apply seq_normal.
+            destruct st1; exact H. }
+        destruct PART1 as [P1 P2].
+        destruct (b && (M <=? c + 1)) eqn:Er.
+        + destruct (P1 eq_refl) as [stx [Kx [Sx Bx]]]. exists stx. split; [exact Kx|]. split; [exact Sx|]. cbn [app]. apply Bx.
+        + destruct (P2 eq_refl) as [sC [KC [FC [SC BC]]]].
+          assert (Hc' : 0 <= (if b then c + 1 else c) <= k + 1) by (destruct b; lia).
+          destruct (incr_rep_run (deeper (deeper h)) 0%nat k _ sC FC Hk) as [st2 [K2 [F2 [S2 [Hm Hn]]]]].
+          destruct (k + 1 <? N) eqn:E.
+          * apply Z.ltb_lt in E. exists st2. split; [eapply keeps_trans; eassumption|]. split; [exact F2|].
+            split; [congruence|]. split; [exact Hc'|]. cbn [app]. apply BC. apply Hm. exact E.
+          * apply Z.ltb_ge in E.
+            destruct F2 as [W2 [_ [_ [_ D2]]]]. destruct (D2 Eq) as [DM2 _].
+            exists (set_stack st2 [V32 (b2z (M =? 0))]).
+            split; [eapply keeps_trans; [exact KC|]; eapply keeps_trans; [exact K2 | apply keeps_stack]|].
+            split; [reflexivity|]. cbn [app]. apply BC. apply Hn; [exact E|].
+            apply (load_run (S (S sp)) M _ _ _ _ W2 ltac:(lia) DM2).
+            cbn [app]. eapply step_un; [reflexivity | reflexivity |]. cbn [set_stack s_stack]. rewrite S2, SC. apply BNil.
+    Qed.
+
+    (* the loop, from any iteration on *)
+    Lemma loop_ok : forall r k c st,
+      Z.of_nat (S r) = N - k -> 0 <= k -> 0 <= c <= k ->
+      R cg sp (env_of vars) st -> Fr k c st -> s_stack st = [] ->
+      exists st' o b,
+        loop_q qk M c false (map fbody (zfrom k (S r))) = VBool b /\
+        keeps sp st st' /\ s_stack st' = [V32 (b2z b)] /\
+        (o = ONormal st' \/ o = OBranch 0 st') /\
+        bs [ILoop 1 (loop_body cg sp h qk x body)] st o.
+    Proof.
+      induction r as [|r IH]; intros k c st Hr Hk Hc HR HF Sst.
+      - (* the last iteration *)
+        destruct (body_run k c st HR HF Sst) as [st1 [K1 [S1 C1]]].
+        pose proof (arm_run k c st1 _ (Fr_keeps _ _ _ _ K1 HF) S1 ltac:(lia) Hc) as ARM.
+        rewrite zfrom_S. cbn [map zfrom seq]. rewrite (loop_q_step qk M c _ _ Hqk).
+        replace (k + 1 <? N) with false in ARM by (symmetry; apply Z.ltb_ge; lia).
+        assert (K1' : keeps sp st st1) by (eapply keeps_weaken; [|exact K1]; unfold sp'; lia).
+        destruct (arm_step qk M c (truthy (fbody k)) false) as [v | c' | v] eqn:ST.
+        + destruct ARM as [stx [Kx [Sx Bx]]]. exists stx, (OBranch 0 stx), v.
+          split; [reflexivity|]. split; [eapply keeps_trans; eassumption|]. split; [exact Sx|]. split; [right; reflexivity|].
+          eapply BLoopExit.
+          * rewrite (stack_nil_same _ Sst). unfold loop_body. apply C1. exact Bx.
+          * intros st' E. discriminate E.
+          * cbn [close]. apply seq_branch.
+        + exfalso. unfold arm_step in ST. destruct qk, (truthy (fbody k)); try discriminate ST; try (apply Hqk; reflexivity);
+            cbn [andb] in ST; try destruct (M <=? c + 1); discriminate ST.
+        + destruct ARM as [stx [Kx [Sx Bx]]]. exists (set_stack stx ([V32 (b2z v)] ++ s_stack st)), (ONormal (set_stack stx ([V32 (b2z v)] ++ s_stack st))), v.
+          split; [reflexivity|]. split; [eapply keeps_trans; [exact K1'|]; eapply keeps_trans; [exact Kx | apply keeps_stack]|].
+          split; [cbn [set_stack s_stack]; rewrite Sst; reflexivity|]. split; [left; reflexivity|].
+          eapply BLoopExit.
+          * rewrite (stack_nil_same _ Sst). unfold loop_body. apply C1. exact Bx.
+          * intros st' E. discriminate E.
+          * cbn [close]. unfold leave. rewrite Sx. cbn [take_top length Nat.leb firstn]. apply seq_normal. apply BNil.
+      - (* an iteration followed by others *)
+        destruct (body_run k c st HR HF Sst) as [st1 [K1 [S1 C1]]].
+        pose proof (arm_run k c st1 _ (Fr_keeps _ _ _ _ K1 HF) S1 ltac:(lia) Hc) as ARM.
+        rewrite zfrom_S. cbn [map]. rewrite (loop_q_step qk M c _ _ Hqk).
+        assert (MORE : match map fbody (zfrom (k + 1) (S r)) with [] => false | _ => true end = true) by (rewrite zfrom_S; reflexivity).
+        rewrite MORE.
+        replace (k + 1 <? N) with true in ARM by (symmetry; apply Z.ltb_lt; lia).
+        assert (K1' : keeps sp st st1) by (eapply keeps_weaken; [|exact K1]; unfold sp'; lia).
+        destruct (arm_step qk M c (truthy (fbody k)) true) as [v | c' | v] eqn:ST.
+        + destruct ARM as [stx [Kx [Sx Bx]]]. exists stx, (OBranch 0 stx), v.
+          split; [reflexivity|]. split; [eapply keeps_trans; eassumption|]. split; [exact Sx|]. split; [right; reflexivity|].
+          eapply BLoopExit.
+          * rewrite (stack_nil_same _ Sst). unfold loop_body. apply C1. exact Bx.
+          * intros st' E. discriminate E.
+          * cbn [close]. apply seq_branch.
+        + destruct ARM as [st2 [K2 [F2 [S2 [Hc' B2]]]]].
+          assert (K02 : keeps sp st st2) by (eapply keeps_trans; eassumption).
+          destruct (IH (k + 1) c' st2 ltac:(lia) ltac:(lia) Hc' (R_keeps _ _ _ _ _ HR K02) F2 S2) as [st' [o [b [Eb [K' [S' [Ho B']]]]]]].
+          exists st', o, b. split; [exact Eb|].
+          split; [eapply keeps_trans; eassumption|]. split; [exact S'|]. split; [exact Ho|].
+          eapply BLoopAgain.
+          * rewrite (stack_nil_same _ Sst). unfold loop_body. apply C1. exact B2.
+          * rewrite Sst, (stack_nil_same _ S2). exact B'.
+        + exfalso. unfold arm_step in ST. destruct qk, (truthy (fbody k)); try discriminate ST; try (apply Hqk; reflexivity);
+            cbn [andb] in ST; try destruct (M <=? c + 1); discriminate ST.
+    Qed.
+  End Loop.
+
+  (* ---- integer expressions do not touch the variable area: their code does
+     not depend on the number of slots in use, so it keeps every slot *)
+  Ltac kill H :=
+    repeat (match type of H with
+            | context [match tyof ?a ?b ?c with _ => _ end] => destruct (tyof a b c) as [[|]|]; try discriminate H
+            | context [match clookup ?a ?b with _ => _ end] => destruct (clookup a b) as [[? [|]]|]; try discriminate H
+            | context [match fits ?a ?b with _ => _ end] => destruct (fits a b) as [[|]|]; try discriminate H
+            | context [if ?c then _ else _] => destruct c; try discriminate H
+            end); try discriminate H.
+  Lemma int_sp_indep : forall e G sp sp2, tyof G sp e = Some TInt ->
+    tyof G sp2 e = Some TInt /\ forall h, emit G sp2 h e = emit G sp h e.
+  Proof.
+    induction e; intros G sp sp2 H; cbn [tyof] in H |- *; try discriminate H;
+      try (split; [exact H | reflexivity]).
+    - (* ENot *) kill H.
+    - (* EAnd *) kill H.
+    - (* EOr *) kill H.
+    - (* EDefined *) destruct (tyof G sp e) as [|]; discriminate.
+    - (* ENeg *) destruct (tyof G sp e) as [[|]|] eqn:T; try discriminate.
+      destruct (IHe G sp sp2 T) as [T2 E2]. rewrite T2. split; [reflexivity|]. intros h. cbn [emit]. rewrite E2. reflexivity.
+    - (* EBitNot *) destruct (tyof G sp e) as [[|]|] eqn:T; try discriminate.
+      destruct (IHe G sp sp2 T) as [T2 E2]. rewrite T2. split; [reflexivity|]. intros h. cbn [emit]. rewrite E2. reflexivity.
+    - (* EArith *) destruct (tyof G sp e1) as [[|]|] eqn:Ta; try discriminate. destruct (tyof G sp e2) as [[|]|] eqn:Tb; try discriminate.
+      destruct (IHe1 G sp sp2 Ta) as [Ta2 Ea]. destruct (IHe2 G sp sp2 Tb) as [Tb2 Eb]. rewrite Ta2, Tb2.
+      split; [reflexivity|]. intros h. cbn [emit]. rewrite Ea, Eb. reflexivity.
+    - (* ECmp *) destruct (tyof G sp e1) as [[|]|]; try discriminate; destruct (tyof G sp e2) as [[|]|]; try discriminate; destruct op; discriminate.
+    - (* ERead *) destruct k as [n sg be]. destruct (tyof G sp e) as [[|]|] eqn:T; try discriminate.
+      destruct (IHe G sp sp2 T) as [T2 E2]. rewrite T2. split; [exact H|]. intros h. cbn [emit]. rewrite E2. reflexivity.
+    - (* EPat *) destruct p; destruct ak; kill H.
+    - (* ECount *) destruct p.
+      + destruct ranged.
+        * destruct (tyof G sp e1) as [[|]|] eqn:Ta; try discriminate. destruct (tyof G sp e2) as [[|]|] eqn:Tb; try discriminate.
+          destruct (IHe1 G sp sp2 Ta) as [Ta2 Ea]. destruct (IHe2 G sp sp2 Tb) as [Tb2 Eb]. rewrite Ta2, Tb2.
+          split; [reflexivity|]. intros h. cbn [emit]. rewrite Ea, Eb. reflexivity.
+        * split; [reflexivity|]. reflexivity.
+      + destruct (clookup cur_key G) as [[slot [|]]|]; try discriminate. destruct ranged.
+        * destruct (tyof G sp e1) as [[|]|] eqn:Ta; try discriminate. destruct (tyof G sp e2) as [[|]|] eqn:Tb; try discriminate.
+          destruct (IHe1 G sp sp2 Ta) as [Ta2 Ea]. destruct (IHe2 G sp sp2 Tb) as [Tb2 Eb]. rewrite Ta2, Tb2.
+          split; [reflexivity|]. intros h. cbn [emit]. rewrite Ea, Eb. reflexivity.
+        * split; [reflexivity|]. reflexivity.
+    - (* EOffset *) destruct p.
+      + destruct (tyof G sp e) as [[|]|] eqn:T; try discriminate.
+        destruct (IHe G sp sp2 T) as [T2 E2]. rewrite T2. split; [reflexivity|]. intros h. cbn [emit]. rewrite E2. reflexivity.
+      + destruct (clookup cur_key G) as [[slot [|]]|]; try discriminate.
+        destruct (tyof G sp e) as [[|]|] eqn:T; try discriminate.
+        destruct (IHe G sp sp2 T) as [T2 E2]. rewrite T2. split; [reflexivity|]. intros h. cbn [emit]. rewrite E2. reflexivity.
+    - (* ELength *) destruct p.
+      + destruct (tyof G sp e) as [[|]|] eqn:T; try discriminate.
+        destruct (IHe G sp sp2 T) as [T2 E2]. rewrite T2. split; [reflexivity|]. intros h. cbn [emit]. rewrite E2. reflexivity.
+      + destruct (clookup cur_key G) as [[slot [|]]|]; try discriminate.
+        destruct (tyof G sp e) as [[|]|] eqn:T; try discriminate.
+        destruct (IHe G sp sp2 T) as [T2 E2]. rewrite T2. split; [reflexivity|]. intros h. cbn [emit]. rewrite E2. reflexivity.
+    - (* EOf *) destruct qk; destruct set; destruct ak; try discriminate H; unfold fits in H; kill H.
+    - (* EOfB *) destruct items; try discriminate H. destruct qk; unfold fits in H; kill H.
+    - (* EForOf *) destruct set; try discriminate H. destruct qk; unfold fits in H; kill H.
+    - (* EForRange *) destruct qk; try discriminate; kill H.
+    - (* EForTuple *) destruct items; try discriminate H. destruct qk; unfold fits in H; kill H.
+    - (* EWith *) destruct (tyof G (S sp) e1) as [td|]; try discriminate.
+      destruct (Nat.ltb sp (Z.to_nat MAX_VARS)); try discriminate.
+      destruct (tyof ((x, (sp, td)) :: G) (S sp) e2) as [[|]|]; discriminate.
+  Qed.
+
+  Lemma int_all : forall e, Ok e -> forall g sp h F vars st,
+    tyof g sp e = Some TInt -> R g sp (env_of vars) st -> hspec host (h_code h) F ->
+    types_as TInt (eval (env_of vars) e) /\
+    computes MAXV h F (s_stack st) (emit g sp h e) (eval (env_of vars) e) st.
+  Proof.
+    intros e OkE g sp h F vars st T HR HF.
+    destruct (int_sp_indep e g sp MAXV T) as [T2 E2].
+    assert (HR2 : R g MAXV (env_of vars) st).
+    { apply (R_more g sp); [exact HR | destruct HR as [_ [L _]]; exact L | apply le_n]. }
+    destruct (OkE g MAXV h F vars st TInt T2 HR2 HF) as [Tv Hc]. rewrite E2 in Hc. split; assumption.
+  Qed.
+
+  (* ---- the initialisation of the loop *)
+  (* catch_undef of the range's length: 0 when a bound is undefined *)
+  Definition hZ : handler := mkH [IConst (V64 0)] 0.
+  Definition FZ (st : state) : state := set_stack st (V64 0 :: s_stack st).
+  Lemma hspec_hZ : hspec host (h_code hZ) FZ.
+  Proof. intros d st1. cbn [hZ h_code app]. apply step_const. apply BBr. Qed.
+
+  Lemma upd_stack_l : forall slot a b s, upd slot a b -> upd slot (set_stack a s) b.
+  Proof. intros slot a b s H. exact H. Qed.
+  Lemma upd_stack_r : forall slot a b s, upd slot a b -> upd slot a (set_stack b s).
+  Proof. intros slot a b s H. exact H. Qed.
+  Lemma keeps_stack_l : forall sp a b s, keeps sp a b -> keeps sp (set_stack a s) b.
+  Proof. intros sp a b s H. exact H. Qed.
+
+  (* n := hi - lo + 1 (0 if a bound is undefined); tmpA := lo *)
+  Lemma n_init_run : forall cg sp vars st lo hi,
+    Ok lo -> Ok hi -> tyof cg sp lo = Some TInt -> tyof cg sp hi = Some TInt ->
+    R cg sp (env_of vars) st -> (sp < MAXV)%nat ->
+    exists sN n, upd sp st sN /\ s_stack sN = s_stack st /\ var_ok sN sp TInt (VInt n) /\
+      match eval (env_of vars) lo, eval (env_of vars) hi with
+      | VInt l, VInt hh => n = w64 (hh - l + 1) /\ s_locals sN tmpA = V64 l
+      | _, _ => n = 0
+      end /\
+      forall rest o, bs rest sN o ->
+        bs (set_var sp TInt
+              (catch_undef 1
+                 (fun h' => emit cg sp h' hi ++ emit cg sp h' lo ++ [ILocalTee tmpA; IBin I64Sub; IConst (V64 1); IBin I64Add])
+                 [IConst (V64 0)]) ++ rest) st o.
+  Proof.
+    intros cg sp vars st lo hi OkLo OkHi Tlo Thi HR M.
+    set (sA := set_stack st (V32 (slot_addr sp) :: s_stack st)).
+    set (sB := set_stack sA []).
+    assert (HRB : R cg sp (env_of vars) sB) by (eapply R_keeps; [exact HR | exact (keeps_stack sp st [])]).
+    destruct (int_all hi OkHi cg sp hZ FZ vars sB Thi HRB hspec_hZ) as [Thv [Dh Uh]].
+    unfold catch_undef. fold hZ.
+    (* the block leaves n on top of the address; then the store *)
+    assert (FIN : forall s1 n, keeps MAXV sB s1 ->
+              (forall r o', bs r (set_stack s1 (V64 n :: V32 (slot_addr sp) :: s_stack st)) o' ->
+                 bs ([IBlock 1 (emit cg sp hZ hi ++ emit cg sp hZ lo ++ [ILocalTee tmpA; IBin I64Sub; IConst (V64 1); IBin I64Add])] ++ r) sA o') ->
+              upd sp st (store (set_stack s1 (s_stack st)) sp n) /\
+              forall rest o, bs rest (store (set_stack s1 (s_stack st)) sp n) o ->
+                bs (set_var sp TInt [IBlock 1 (emit cg sp hZ hi ++ emit cg sp hZ lo ++ [ILocalTee tmpA; IBin I64Sub; IConst (V64 1); IBin I64Add])] ++ rest) st o).
+    { intros s1 n K1 C. split.
+      - eapply keeps_upd; [exact K1|]. exact (upd_store (set_stack s1 (s_stack st)) sp n M).
+      - intros rest o H.
+        apply (set_var_run sp _ rest st (set_stack s1 (V64 n :: V32 (slot_addr sp) :: s_stack st)) n o); [| reflexivity | exact H].
+        intros r o' Hr. fold sA. apply C. exact Hr. }
+    (* a bound is undefined: the handler leaves 0 *)
+    assert (UNDEF : forall s1, keeps MAXV sB s1 ->
+              bs (emit cg sp hZ hi ++ emit cg sp hZ lo ++ [ILocalTee tmpA; IBin I64Sub; IConst (V64 1); IBin I64Add]) sB (OBranch 0 (FZ s1)) ->
+              exists sN, upd sp st sN /\ s_stack sN = s_stack st /\ var_ok sN sp TInt (VInt 0) /\
+                forall rest o, bs rest sN o ->
+                  bs (set_var sp TInt [IBlock 1 (emit cg sp hZ hi ++ emit cg sp hZ lo ++ [ILocalTee tmpA; IBin I64Sub; IConst (V64 1); IBin I64Add])] ++ rest) st o).
+    { intros s1 K1 B.
+      destruct (FIN s1 0 K1) as [U C].
+      - intros r o' Hr. cbn [app]. eapply BBlock; [exact B|].
+        cbn [close leave FZ set_stack s_stack take_top length Nat.leb firstn app sA]. apply seq_normal.
+        destruct s1; exact Hr.
+      - exists (store (set_stack s1 (s_stack st)) sp 0). split; [exact U|]. split; [reflexivity|].
+        split; [apply var_ok_store; exact M | exact C]. }
+    destruct (eval (env_of vars) hi) as [hh| | |] eqn:Ehi; cbn in Thv; try discriminate; try contradiction.
+    - destruct (Dh ltac:(discriminate)) as [s1 [K1 [S1 C1]]]. cbn [sB set_stack s_stack val_of] in S1.
+      assert (HR1 : R cg sp (env_of vars) s1) by (eapply R_keeps; [exact HRB | eapply keeps_weaken; [|exact K1]; lia]).
+      destruct (int_all lo OkLo cg sp hZ FZ vars s1 Tlo HR1 hspec_hZ) as [Tlv [Dl Ul]]. rewrite S1 in Dl.
+      destruct (eval (env_of vars) lo) as [l| | |] eqn:Elo; cbn in Tlv; try discriminate; try contradiction.
+      + (* both bounds are defined *)
+        destruct (Dl ltac:(discriminate)) as [s2 [K2 [S2 C2]]]. cbn [val_of] in S2.
+        set (s3 := set_local s2 tmpA (V64 l)).
+        destruct (FIN s3 (w64 (hh - l + 1))) as [U C].
+        * eapply keeps_trans; [exact K1|]. eapply keeps_trans; [exact K2 | apply keeps_local].
+        * intros r o' Hr. cbn [app]. eapply BBlock.
+          -- apply C1. apply C2.
+             eapply BSimple; [reflexivity | cbn [step_simple]; rewrite S2; reflexivity |].
+             eapply step_bin; [cbn [set_local s_stack]; exact S2 | reflexivity |].
+             apply step_const. eapply step_bin; [reflexivity | reflexivity |]. apply BNil.
+          -- cbn [close leave set_stack s_stack take_top length Nat.leb firstn app sA]. apply seq_normal.
+             rewrite w64_succ. destruct s2; exact Hr.
+        * exists (store (set_stack s3 (s_stack st)) sp (w64 (hh - l + 1))), (w64 (hh - l + 1)).
+          split; [exact U|]. split; [reflexivity|]. split; [apply var_ok_store; exact M|].
+          split; [split; reflexivity | exact C].
+      + (* lo is undefined *)
+        destruct (Ul eq_refl [ILocalTee tmpA; IBin I64Sub; IConst (V64 1); IBin I64Add]) as [s2 [K2 B2]].
+        destruct (UNDEF s2 (keeps_trans _ _ _ _ K1 K2)) as [sN [U [S [OK C]]]].
+        * apply C1. exact B2.
+        * exists sN, 0. repeat (split; [assumption|]). split; [reflexivity | exact C].
+    - (* hi is undefined *)
+      destruct (Uh eq_refl (emit cg sp hZ lo ++ [ILocalTee tmpA; IBin I64Sub; IConst (V64 1); IBin I64Add])) as [s1 [K1 B1]].
+      destruct (UNDEF s1 K1) as [sN [U [S [OK C]]]].
+      + exact B1.
+      + exists sN, 0. repeat (split; [assumption|]).
+        split; [destruct (eval (env_of vars) lo); reflexivity | exact C].
+  Qed.
+
+  (* the block around the whole loop *)
+  Lemma block_value : forall sp h F st inner st' o1 (b : bool),
+    bs inner (set_stack st []) o1 -> (o1 = ONormal st' \/ o1 = OBranch 0 st') ->
+    s_stack st' = [V32 (b2z b)] -> keeps sp st st' ->
+    computes sp h F (s_stack st) [IBlock 1 inner] (VBool b) st.
+  Proof.
+    intros sp h F st inner st' o1 b B Ho S K. split; [intros _ | intros E; discriminate].
+    exists (set_stack st' (V32 (b2z b) :: s_stack st)).
+    split; [eapply keeps_trans; [exact K | apply keeps_stack]|]. split; [reflexivity|].
+    intros rest o Hr. cbn [app]. eapply BBlock; [exact B|].
+    destruct Ho as [-> | ->]; cbn [close]; unfold leave; rewrite S; cbn [take_top length Nat.leb firstn app];
+      apply seq_normal; exact Hr.
+  Qed.
+  Lemma block_throw : forall sp h F st inner s1 v,
+    bs inner (set_stack st []) (OBranch (S (h_depth h)) (F s1)) -> keeps sp st s1 -> v = VUndef ->
+    computes sp h F (s_stack st) [IBlock 1 inner] v st.
+  Proof.
+    intros sp h F st inner s1 v B K ->. split; [intros E; contradiction | intros _ rest].
+    exists s1. split; [exact K|]. cbn [app]. eapply BBlock; [exact B|]. cbn [close]. apply seq_branch.
+  Qed.
+
+  Lemma quantified_loop : forall qk vq items, qk <> QPct ->
+    quantified qk vq false items =
+    match qk, vq with
+    | QExpr, VInt m => loop_q QExpr m 0 false items
+    | QExpr, _ => VUndef
+    | _, _ => loop_q qk 0 0 false items
+    end.
+  Proof.
+    intros qk vq items H. unfold quantified. destruct qk; try contradiction; cbn [max_count]; try reflexivity.
+    destruct vq; reflexivity.
+  Qed.
+
+  Lemma for_range_ok : forall qk q x lo hi body,
+    (qk = QExpr -> Ok q) -> Ok lo -> Ok hi -> Ok body -> Ok (EForRange qk q x lo hi body).
+  Proof.
+    intros qk q x lo hi body OkQ OkLo OkHi OkB cg sp h F vars st t Ht HR HF.
+    set (g' := (x, ((sp + 5)%nat, TInt)) :: cg). set (sp' := (sp + FOR_IN_FRAME)%nat).
+    assert (HT : qk <> QPct /\ (qk = QExpr -> tyof cg sp q = Some TInt) /\ tyof cg sp lo = Some TInt /\
+                 tyof cg sp hi = Some TInt /\ (sp + FOR_IN_FRAME <= MAXV)%nat /\ tyof g' sp' body = Some TBool /\ t = TBool).
+    { cbn [tyof] in Ht. fold g' sp' in Ht.
+      destruct qk; try discriminate Ht;
+        repeat match type of Ht with context [match tyof ?a ?b ?c with _ => _ end] => destruct (tyof a b c) as [[|]|] eqn:?; try discriminate Ht end;
+        (destruct (Nat.leb sp' (Z.to_nat MAX_VARS)) eqn:Lb; cbn [negb] in Ht; try discriminate Ht);
+        apply Nat.leb_le in Lb; injection Ht as <-;
+        (repeat split; try assumption; try discriminate; try reflexivity; try (intros E; discriminate E)). }
+    destruct HT as [Hqk [Tq [Tlo [Thi [Hfit [Tb ->]]]]]].
+    pose proof Hfit as Hfit7. rewrite frame7 in Hfit7.
+    rewrite emit_for_eq.
+    set (s0 := set_stack st []).
+    assert (HR0 : R cg sp (env_of vars) s0) by (eapply R_keeps; [exact HR | apply keeps_stack]).
+    destruct (n_init_run cg sp vars s0 lo hi OkLo OkHi Tlo Thi HR0 ltac:(lia)) as [sN [n [UN [SN [OKn [INFO Cn]]]]]].
+    cbn [s0 set_stack s_stack] in SN.
+    assert (WN : flags_wf sN) by (eapply upd_wf; [exact UN | destruct HR0 as [_ [_ [W _]]]; exact W]).
+    assert (KN : keeps sp st sN) by (eapply keeps_trans; [apply (keeps_stack sp st []) | eapply (upd_keeps sp); [exact UN | lia | lia]]).
+    (* the test n <= 0 *)
+    assert (CHECK : forall tail o, bs tail (set_stack sN [V32 (b2z (n <=? 0))]) o ->
+              bs (load_var sp TInt (deeper h) ++ IConst (V64 0) :: IBin I64LeS :: tail) sN o).
+    { intros tail o H. apply (load_run sp n _ _ sN o WN ltac:(lia) OKn).
+      cbn [app]. apply step_const. eapply step_bin; [reflexivity | reflexivity |]. cbn [set_stack s_stack]. rewrite SN. exact H. }
+    (* no iteration: the loop is false *)
+    assert (EMPTY : forall v, n <= 0 -> v = VBool false ->
+              types_as TBool v /\
+              computes sp h F (s_stack st)
+                [IBlock 1 (loop_init cg sp h qk q lo hi ++ [ILoop 1 (loop_body cg sp h qk x body)])] v st).
+    { intros v Hn ->. split; [reflexivity|].
+      apply (block_value sp h F st _ (set_stack sN [V32 0]) (OBranch 0 (set_stack sN [V32 0])) false).
+      - unfold loop_init. rewrite <- !app_assoc. fold s0. apply Cn. cbn [app]. apply CHECK.
+        replace (n <=? 0) with true by (symmetry; apply Z.leb_le; exact Hn).
+        eapply step_if; [reflexivity | cbn [b2z Z.eqb]; apply step_const; apply BBr |].
+        cbn [close set_stack s_stack]. apply seq_branch.
+      - right. reflexivity.
+      - reflexivity.
+      - eapply keeps_trans; [exact KN | apply keeps_stack]. }
+    cbn [eval].
+    destruct (eval (env_of vars) lo) as [l| | |] eqn:Elo; [| apply EMPTY; [lia | reflexivity] ..].
+    destruct (eval (env_of vars) hi) as [hh| | |] eqn:Ehi; [| apply EMPTY; [lia | reflexivity] ..].
+    destruct INFO as [En LA]. cbn [range_items]. rewrite <- w64_wrap64, <- En.
+    destruct (0 <? n) eqn:Pos; [| apply EMPTY; [apply Z.ltb_ge in Pos; lia | reflexivity]].
+    apply Z.ltb_lt in Pos.
+    assert (Nb : 0 < n < m63).
+    { split; [exact Pos|]. rewrite En. unfold w64. pose proof (Z.mod_pos_bound (hh - l + 1 + m63) m64 ltac:(unfold m64; lia)). unfold m63, m64 in *. lia. }
+    (* item := lo; i := 0 *)
+    set (s1 := set_stack sN []).
+    set (sX := store s1 (sp + 5)%nat l).
+    set (sI := store sX (S sp) 0).
+    assert (UX : upd (sp + 5)%nat sN sX) by (exact (upd_store s1 (sp + 5)%nat l ltac:(lia))).
+    assert (UI : upd (S sp) sX sI) by (apply upd_store; lia).
+    assert (WI : flags_wf sI) by (eapply upd_wf; [exact UI|]; eapply upd_wf; [exact UX | exact WN]).
+    assert (KI : keeps sp st sI).
+    { eapply keeps_trans; [exact KN|]. eapply keeps_trans; [eapply (upd_keeps sp); [exact UX | lia | lia] | eapply (upd_keeps sp); [exact UI | lia | lia]]. }
+    assert (OKnI : var_ok sI sp TInt (VInt n)).
+    { eapply upd_var_ok; [exact UI | lia | lia |]. eapply upd_var_ok; [exact UX | lia | lia | exact OKn]. }
+    assert (OKxI : var_ok sI (sp + 5)%nat TInt (VInt (range_item l 0))).
+    { eapply upd_var_ok; [exact UI | lia | lia |]. cbn [range_item Z.eqb]. apply var_ok_store. lia. }
+    assert (OKiI : var_ok sI (S sp) TInt (VInt 0)) by (apply var_ok_store; lia).
+    assert (CI : forall tail o, bs tail sI o ->
+              bs (IIf 0 [IConst (V32 0); IBr 1] [] :: set_var (sp + 5) TInt [ILocalGet tmpA] ++ set_var (S sp) TInt [IConst (V64 0)] ++ tail)
+                 (set_stack sN [V32 (b2z (n <=? 0))]) o).
+    { intros tail o H.
+      replace (n <=? 0) with false by (symmetry; apply Z.leb_gt; exact Pos).
+      eapply step_if; [reflexivity | cbn [b2z Z.eqb]; apply BNil |].
+      cbn [close leave take_top length Nat.leb firstn app set_stack s_stack]. apply seq_normal. fold s1.
+      apply (set_var_run (sp + 5)%nat _ _ s1 (set_stack s1 (V64 l :: V32 (slot_addr (sp + 5)) :: s_stack s1)) l o).
+      - intros r o' Hr. cbn [app]. eapply BSimple; [reflexivity | cbn [step_simple set_stack s_stack s_locals s1]; rewrite LA; reflexivity | exact Hr].
+      - reflexivity.
+      - cbn [set_stack s_stack]. replace (set_stack s1 (s_stack s1)) with s1 by (symmetry; apply set_stack_same). fold sX.
+        apply (set_var_run (S sp) _ _ sX (set_stack sX (V64 0 :: V32 (slot_addr (S sp)) :: s_stack sX)) 0 o).
+        + intros r o' Hr. cbn [app]. apply step_const. exact Hr.
+        + reflexivity.
+        + cbn [set_stack s_stack]. replace (set_stack sX (s_stack sX)) with sX by (symmetry; apply set_stack_same). exact H. }
+    (* the loop itself, from a state that holds the frame *)
+    assert (LOOP : forall M sL, keeps sp st sL -> s_stack sL = [] ->
+              Fr sp qk l n M 0 0 sL ->
+              exists st' o b, loop_q qk M 0 false (map (fbody vars x body l) (zfrom 0 (Z.to_nat n))) = VBool b /\
+                keeps sp st st' /\ s_stack st' = [V32 (b2z b)] /\ (o = ONormal st' \/ o = OBranch 0 st') /\
+                bs [ILoop 1 (loop_body cg sp h qk x body)] sL o).
+    { intros M sL KL SL FL.
+      destruct (loop_ok cg sp vars x body qk h l n M Hfit Tb OkB Nb Hqk (Z.to_nat n - 1) 0 0 sL) as [st' [o [b [Eb [K' [S' [Ho B']]]]]]];
+        try lia; try assumption.
+      - eapply R_keeps; eassumption.
+      - exists st', o, b. replace (S (Z.to_nat n - 1)) with (Z.to_nat n) in Eb by lia.
+        split; [exact Eb|]. split; [eapply keeps_trans; eassumption|]. auto. }
+    assert (ITEMS : map (fun k => eval (bind x (VInt (range_item l k)) (env_of vars)) body) (zseq n)
+                    = map (fbody vars x body l) (zfrom 0 (Z.to_nat n))) by (rewrite zseq_zfrom; reflexivity).
+    rewrite ITEMS, (quantified_loop qk _ _ Hqk).
+    assert (SI : s_stack sI = []) by reflexivity.
+    assert (NONQ : qk <> QExpr ->
+      types_as TBool (match qk, eval (env_of vars) q with
+                      | QExpr, VInt m => loop_q QExpr m 0 false (map (fbody vars x body l) (zfrom 0 (Z.to_nat n)))
+                      | QExpr, _ => VUndef
+                      | _, _ => loop_q qk 0 0 false (map (fbody vars x body l) (zfrom 0 (Z.to_nat n)))
+                      end) /\
+      computes sp h F (s_stack st)
+        [IBlock 1 (loop_init cg sp h qk q lo hi ++ [ILoop 1 (loop_body cg sp h qk x body)])]
+        (match qk, eval (env_of vars) q with
+         | QExpr, VInt m => loop_q QExpr m 0 false (map (fbody vars x body l) (zfrom 0 (Z.to_nat n)))
+         | QExpr, _ => VUndef
+         | _, _ => loop_q qk 0 0 false (map (fbody vars x body l) (zfrom 0 (Z.to_nat n)))
+         end) st).
+    { intros NQ.
+      assert (FL : Fr sp qk l n 0 0 0 sI).
+      { split; [exact WI|]. split; [exact OKnI|]. split; [exact OKiI|]. split; [exact OKxI|]. intros E. contradiction. }
+      destruct (LOOP 0 sI KI SI FL) as [st' [o [b [Eb [K' [S' [Ho B']]]]]]].
+      replace (match qk, eval (env_of vars) q with
+               | QExpr, VInt m => loop_q QExpr m 0 false (map (fbody vars x body l) (zfrom 0 (Z.to_nat n)))
+               | QExpr, _ => VUndef
+               | _, _ => loop_q qk 0 0 false (map (fbody vars x body l) (zfrom 0 (Z.to_nat n)))
+               end) with (VBool b) by (rewrite <- Eb; destruct qk; try reflexivity; contradiction).
+      split; [reflexivity|].
+      apply (block_value sp h F st _ st' o b); [| exact Ho | exact S' | exact K'].
+      unfold loop_init. rewrite <- !app_assoc. fold s0. apply Cn. cbn [app]. apply CHECK. apply CI.
+      replace (match qk with
+               | QExpr => set_var (S (S sp)) TInt (emit cg sp (deeper h) q) ++ set_var (S (S (S sp))) TInt [IConst (V64 0)]
+               | _ => []
+               end) with (@nil instr) by (destruct qk; try reflexivity; contradiction).
+      exact B'. }
+    destruct qk; try (apply NONQ; discriminate); try (exfalso; apply Hqk; reflexivity).
+    (* <expr>: max_count := q; count := 0 *)
+    clear NONQ. specialize (Tq eq_refl).
+    assert (HRI : R cg sp (env_of vars) (set_stack sI (V32 (slot_addr (S (S sp))) :: s_stack sI))).
+    { eapply R_keeps; [exact HR|]. eapply keeps_trans; [exact KI | apply keeps_stack]. }
+    destruct (int_all q (OkQ eq_refl) cg sp (deeper h) F vars _ Tq HRI HF) as [Tvq [Dq Uq]]. cbn [set_stack s_stack] in Dq.
+    destruct (eval (env_of vars) q) as [M| | |] eqn:Eq'; cbn in Tvq; try discriminate; try contradiction.
+    - destruct (Dq ltac:(discriminate)) as [s2 [K2 [S2 C2]]]. cbn [val_of] in S2.
+      set (sM := store (set_stack s2 (s_stack sI)) (S (S sp)) M).
+      set (sC := store sM (S (S (S sp))) 0).
+      assert (UM : upd (S (S sp)) sI sM).
+      { eapply keeps_upd; [exact K2|]. exact (upd_store (set_stack s2 (s_stack sI)) (S (S sp)) M ltac:(lia)). }
+      assert (UC : upd (S (S (S sp))) sM sC) by (apply upd_store; lia).
+      assert (P : forall s t v, (s < MAXV)%nat -> s <> S (S sp) -> s <> S (S (S sp)) -> var_ok sI s t v -> var_ok sC s t v).
+      { intros s t v Hs N1 N2 OK. eapply upd_var_ok; [exact UC | exact Hs | exact N2 |]. eapply upd_var_ok; [exact UM | exact Hs | exact N1 | exact OK]. }
+      assert (FL : Fr sp QExpr l n M 0 0 sC).
+      { split; [eapply upd_wf; [exact UC|]; eapply upd_wf; [exact UM | exact WI]|].
+        split; [apply P; try lia; exact OKnI|]. split; [apply P; try lia; exact OKiI|]. split; [apply P; try lia; exact OKxI|].
+        intros _. split; [eapply upd_var_ok; [exact UC | lia | lia |]; apply var_ok_store; lia | apply var_ok_store; lia]. }
+      assert (KC : keeps sp st sC).
+      { eapply keeps_trans; [exact KI|]. eapply keeps_trans; [eapply (upd_keeps sp); [exact UM | lia | lia] | eapply (upd_keeps sp); [exact UC | lia | lia]]. }
+      destruct (LOOP M sC KC eq_refl FL) as [st' [o [b [Eb [K' [S' [Ho B']]]]]]].
+      rewrite Eb. split; [reflexivity|].
+      apply (block_value sp h F st _ st' o b); [| exact Ho | exact S' | exact K'].
+      unfold loop_init. rewrite <- !app_assoc. fold s0. apply Cn. cbn [app]. apply CHECK. apply CI.
+      apply (set_var_run (S (S sp)) _ _ sI s2 M o); [exact C2 | exact S2 |]. fold sM.
+      apply (set_var_run (S (S (S sp))) _ _ sM (set_stack sM (V64 0 :: V32 (slot_addr (S (S (S sp)))) :: s_stack sM)) 0 o).
+      + intros r o' Hr. cbn [app]. apply step_const. exact Hr.
+      + reflexivity.
+      + cbn [set_stack s_stack]. replace (set_stack sM (s_stack sM)) with sM by (symmetry; apply set_stack_same). exact B'.
+    - (* the quantifier is undefined: the whole loop is *)
+      destruct (Uq eq_refl ([IStore (width_of TInt) VARS_STACK_START] ++ set_var_undef (S (S sp)) false ++
+                            set_var (S (S (S sp))) TInt [IConst (V64 0)] ++ [ILoop 1 (loop_body cg sp h QExpr x body)])) as [s2 [K2 B2]].
+      split; [exact I|].
+      apply (block_throw sp h F st _ s2 VUndef); [| | reflexivity].
+      + unfold loop_init. rewrite <- !app_assoc. fold s0. apply Cn. cbn [app]. apply CHECK. apply CI.
+        unfold set_var at 1. rewrite <- !app_assoc. cbn [app]. apply step_const. exact B2.
+      + eapply keeps_trans; [exact KI|]. eapply keeps_weaken; [|exact K2]. lia.
+  Qed.
+
   Lemma emit_ok_size : forall bound e, (esize e < bound)%nat -> frag1 e = true -> Ok e.
   Proof.
     induction bound as [|bound IHn]; [intros e H; inversion H|].
@@ -1193,6 +2001,7 @@ Section Correct.
       try (assert (IHe1 : frag1 e1 = true -> Ok e1) by (intros X; apply IHn; [cbn [esize] in Hsz; lia | exact X]));
       try (assert (IHe2 : frag1 e2 = true -> Ok e2) by (intros X; apply IHn; [cbn [esize] in Hsz; lia | exact X]));
       try (assert (IHe3 : frag1 e3 = true -> Ok e3) by (intros X; apply IHn; [cbn [esize] in Hsz; lia | exact X]));
+      try (assert (IHe4 : frag1 e4 = true -> Ok e4) by (intros X; apply IHn; [cbn [esize] in Hsz; lia | exact X]));
       unfold Ok; intros cg sp h F vars st t Ht HR HF.
     - (* EBool *) cbn in Ht. injection Ht as <-. split; [reflexivity|]. cbn [emit eval]. apply c_const; [discriminate|reflexivity].
     - (* EInt *) cbn in Ht. injection Ht as <-. split; [reflexivity|]. cbn [emit eval]. apply c_const; [discriminate|reflexivity].
@@ -1383,9 +2192,10 @@ Section Correct.
       apply (c_call_undef_int sp h F (s_stack st) st'' (HReadInt n sg be) [V64 x]); try exact HF; try exact I; try reflexivity.
       * exact S.
       * apply read_int_shape.
-    - (* EPat *) cbn [frag1] in Fr. apply andb_true_iff in Fr. destruct Fr as [Fr1 Fr2]. cbn [tyof] in Ht.
-      destruct p as [i|]; [|destruct ak; discriminate].
-      cbn [eval resolve emit]. destruct ak.
+    - (* EPat *) cbn [tyof] in Ht.
+      destruct p as [i|]; [|discriminate Fr].
+      cbn [eval resolve emit]. destruct ak; cbn [frag1] in Fr;
+        [ | pose proof Fr as Fr1 | apply andb_true_iff in Fr; destruct Fr as [Fr1 Fr2] ].
       + (* $a *) injection Ht as <-. cbn [pat_item]. split; [reflexivity|].
         apply c_pat_prefix. intros st1 K D S.
         eapply (c_call_pure sp h F (s_stack st) st1 HCheckMatch [V32 (Z.of_nat i)]);
@@ -1421,9 +2231,10 @@ Section Correct.
         * intros x y st'' K' S'.
           eapply (c_call_pure sp h F (s_stack st) st'' HMatchIn [V32 (Z.of_nat i); V64 x; V64 y]);
             [exact S' | reflexivity | exact I | cbn [host_spec]; destruct K' as [_ [_ [Dn _]]]; rewrite (Dn D), Nat2Z.id; reflexivity | discriminate | reflexivity].
-    - (* ECount *) cbn [frag1] in Fr. apply andb_true_iff in Fr. destruct Fr as [Fr1 Fr2]. cbn [tyof] in Ht.
-      destruct p as [i|]; [|destruct ranged; discriminate].
-      cbn [eval resolve emit env_of e_pm]. destruct ranged.
+    - (* ECount *) cbn [tyof] in Ht.
+      destruct p as [i|]; [|discriminate Fr].
+      cbn [eval resolve emit env_of e_pm]. destruct ranged; cbn [frag1] in Fr;
+        [ apply andb_true_iff in Fr; destruct Fr as [Fr1 Fr2] | ].
       + destruct (tyof cg sp e1) as [[|]|] eqn:Ta; try discriminate.
         destruct (tyof cg sp e2) as [[|]|] eqn:Tb; try discriminate. injection Ht as <-.
         change (v_count (pm i) true (eval (env_of vars) e1) (eval (env_of vars) e2))
@@ -1444,7 +2255,7 @@ Section Correct.
         apply c_pat_prefix. intros st1 K D S.
         eapply (c_call_pure sp h F (s_stack st) st1 HMatches [V32 (Z.of_nat i)]);
           [exact S | reflexivity | exact I | cbn [host_spec]; rewrite D, Nat2Z.id; reflexivity | discriminate | reflexivity].
-    - (* EOffset *) cbn [frag1] in Fr. cbn [tyof] in Ht. destruct p as [i|]; [|discriminate].
+    - (* EOffset *) destruct p as [i|]; [|discriminate Fr]. cbn [frag1] in Fr. cbn [tyof] in Ht.
       destruct (tyof cg sp e) as [[|]|] eqn:Ta; try discriminate. injection Ht as <-.
       cbn [eval resolve emit env_of e_pm].
       replace (v_offset (pm i) (eval (env_of vars) e))
@@ -1458,7 +2269,7 @@ Section Correct.
       intros x st'' K' S'.
       apply (c_call_undef_int sp h F (s_stack st) st'' HOffset [V32 (Z.of_nat i); V64 x]);
         [exact HF | exact S' | reflexivity | exact I | apply v_offset_shape | cbn [host_spec]; destruct K' as [_ [_ [Dn _]]]; rewrite (Dn D), Nat2Z.id; reflexivity].
-    - (* ELength *) cbn [frag1] in Fr. cbn [tyof] in Ht. destruct p as [i|]; [|discriminate].
+    - (* ELength *) destruct p as [i|]; [|discriminate Fr]. cbn [frag1] in Fr. cbn [tyof] in Ht.
       destruct (tyof cg sp e) as [[|]|] eqn:Ta; try discriminate. injection Ht as <-.
       cbn [eval resolve emit env_of e_pm].
       replace (v_length (pm i) (eval (env_of vars) e))
@@ -1473,12 +2284,17 @@ Section Correct.
       apply (c_call_undef_int sp h F (s_stack st) st'' HLength [V32 (Z.of_nat i); V64 x]);
         [exact HF | exact S' | reflexivity | exact I | apply v_length_shape | cbn [host_spec]; destruct K' as [_ [_ [Dn _]]]; rewrite (Dn D), Nat2Z.id; reflexivity].
     - (* EOf: `any / all / N of <set>` without anchor *)
-      cbn [frag1] in Fr. destruct ak; try discriminate Fr. cbn [tyof] in Ht.
+      assert (Fq : qk = QExpr -> frag1 e1 = true /\ consecutive_ids set = true)
+        by (intros ->; destruct ak; try discriminate Fr; cbn [frag1] in Fr; apply andb_true_iff in Fr; exact Fr).
+      assert (ak = ANone) as -> by (destruct ak, qk; try discriminate Fr; reflexivity).
+      assert (Hqk : qk = QAny \/ qk = QAll \/ qk = QExpr) by (destruct qk; try discriminate Fr; auto).
+      clear Fr. cbn [tyof] in Ht.
       destruct (search_ok sp st) as [st' [K [S [D C]]]].
       assert (EI : map (fun i => pat_item (e_pm (env_of vars) i) ANone (eval (env_of vars) e2) (eval (env_of vars) e3)) set
                    = map (fun m => VBool (matched m)) (pats_of set))
         by (unfold pats_of; rewrite map_map; reflexivity).
-      destruct qk; destruct set as [|i0 set']; cbn in Ht; try discriminate Ht;
+      destruct qk; try (destruct Hqk as [X | [X | X]]; discriminate X);
+        destruct set as [|i0 set']; cbn in Ht; try discriminate Ht;
         assert (NE : i0 :: set' <> []) by discriminate.
       + (* any *) injection Ht as <-. rewrite (of_any (env_of vars) (i0 :: set') ANone e2 e3 e1). unfold of_items.
         rewrite EI, existsb_truthy_matched. split; [reflexivity|].
@@ -1504,11 +2320,11 @@ Section Correct.
         exact Blk.
       + (* N of: one call of pat_range_match over the single run *)
         destruct (tyof cg sp e1) as [[|]|] eqn:Tq; try discriminate.
-        destruct (consecutive_ids (i0 :: set')) eqn:Cs; try discriminate. injection Ht as <-.
+        destruct (Fq eq_refl) as [Fq1 Cs]. rewrite Cs in Ht. injection Ht as <-.
         unfold consecutive_ids in Cs. destruct (runs (i0 :: set')) as [|r [|r' rs']] eqn:Rs; try discriminate.
         destruct (single_run _ _ Rs) as [P Hle].
         assert (HR1 : R cg sp (env_of vars) st') by (eapply R_keeps; eassumption).
-        destruct (IHe1 Fr cg sp h F vars st' TInt Tq HR1 HF) as [Tvq _].
+        destruct (IHe1 Fq1 cg sp h F vars st' TInt Tq HR1 HF) as [Tvq _].
         cbn [eval]. rewrite EI.
         assert (EV : v_of QExpr (eval (env_of vars) e1) (map (fun m => VBool (matched m)) (pats_of (i0 :: set')))
                      = on_int1 (fun z => VBool (pat_range_match z (pats_of (run_ids r)))) (eval (env_of vars) e1)).
@@ -1525,7 +2341,7 @@ Section Correct.
         * intros rest o Hr. rewrite <- S in Hr. cbn [app]. do 2 apply step_const. exact Hr.
         * assert (HR2 : R cg sp (env_of vars) (set_stack st' (V32 (Z.of_nat l) :: V32 (Z.of_nat f) :: s_stack st)))
             by (eapply R_keeps; [exact HR1 | apply keeps_stack]).
-          destruct (IHe1 Fr cg sp h F vars _ TInt Tq HR2 HF) as [_ Hq]. cbn [set_stack s_stack] in Hq.
+          destruct (IHe1 Fq1 cg sp h F vars _ TInt Tq HR2 HF) as [_ Hq]. cbn [set_stack s_stack] in Hq.
           apply (c_int1 sp h F (s_stack st) (V32 (Z.of_nat l) :: V32 (Z.of_nat f) :: s_stack st)); [exact Tvq | exact Hq |].
           intros x st'' K' S'.
           eapply (c_call_pure sp h F (s_stack st) st'' HRangeMatch [V32 (Z.of_nat f); V32 (Z.of_nat l); V64 x]).
@@ -1535,6 +2351,11 @@ Section Correct.
           -- cbn [host_spec]. destruct K' as [_ [_ [Dn _]]]. rewrite (Dn D), !Nat2Z.id. reflexivity.
           -- discriminate.
           -- unfold pats_of, run_ids. cbn [fst snd val_of]. rewrite Nat.add_1_r. reflexivity.
+    - (* EForRange *) cbn [frag1] in Fr.
+      apply andb_true_iff in Fr. destruct Fr as [Fr Fr4]. apply andb_true_iff in Fr. destruct Fr as [Fr Fr3].
+      apply andb_true_iff in Fr. destruct Fr as [Fr1 Fr2].
+      refine (for_range_ok qk e1 x e2 e3 e4 _ (IHe2 Fr2) (IHe3 Fr3) (IHe4 Fr4) cg sp h F vars st t Ht HR HF).
+      intros ->. exact (IHe1 Fr1).
     - (* EWith *) cbn [frag1] in Fr. apply andb_true_iff in Fr. destruct Fr as [Fr1 Fr2]. cbn [tyof] in Ht.
       destruct (tyof cg (S sp) e1) as [td|] eqn:Td; try discriminate.
       destruct (Nat.ltb sp (Z.to_nat MAX_VARS)) eqn:Lt; try discriminate. apply Nat.ltb_lt in Lt.
@@ -1560,6 +2381,30 @@ Section Correct.
   Theorem emit_ok1 : forall e, frag1 e = true -> Ok e.
   Proof. intros e. apply (emit_ok_size (S (esize e))). apply Nat.lt_succ_diag_r. Qed.
 
+  (* [frag1] is the structural part of the fragment predicate [tyof] *)
+  Lemma tyof_frag1 : forall e G sp t, tyof G sp e = Some t -> frag1 e = true.
+  Proof.
+    induction e; intros G sp t H; cbn [tyof] in H; cbn [frag1]; try discriminate H; try reflexivity;
+      try (destruct k as [nb sg be]); try (destruct p as [i|]); try (destruct ak); try (destruct ranged);
+      try (destruct qk); try (destruct set as [|i0 set']); cbn [tyof] in H; cbn [frag1]; try discriminate H; try reflexivity;
+      repeat match type of H with
+             | context [match tyof ?a ?b ?c with _ => _ end] =>
+                 let E := fresh "T" in destruct (tyof a b c) as [[|]|] eqn:E; try discriminate H
+             end;
+      repeat match type of H with
+             | context [if ?c then _ else _] => destruct c eqn:?; cbn [negb] in H; try discriminate H
+             end;
+      repeat match type of H with
+             | context [match tyof ?a ?b ?c with _ => _ end] =>
+                 let E := fresh "T" in destruct (tyof a b c) as [[|]|] eqn:E; try discriminate H
+             end;
+      repeat match goal with
+             | IH : forall G sp t, tyof G sp ?e = Some t -> frag1 ?e = true, T : tyof _ _ ?e = Some _ |- _ =>
+                 rewrite (IH _ _ _ T); clear T
+             end;
+      try reflexivity.
+  Qed.
+
   (* ----------------------------------------------------- whole conditions *)
   (* any state a rule's code can start in: the data's size in the filesize
      global, sign-extended flag words; the contents of the variable area
@@ -1572,18 +2417,25 @@ Section Correct.
     intros st [Hf Hw]. repeat split; auto; try (cbn in *; discriminate). lia.
   Qed.
 
-  (* emit_correct: the code emitted for a condition of the (loop-free)
-     fragment, run from any start state, ends normally with exactly the
-     documented verdict on top of the stack *)
-  Theorem emit_correct_partial : forall e st,
-    frag1 e = true -> tyof [] 0 e = Some TBool -> start_ok st ->
-    exists st', bs (emit_condition e) st (ONormal st') /\
-                s_stack st' = V32 (b2z (holds (env_of []) e)) :: s_stack st.
+  (* the statement: for every condition of the fragment of Cond/Emit.v (the
+     conditions [tyof] types: arithmetic with the guards of shift / division /
+     remainder, comparisons, not / n-ary and / or / defined, uintN, $a [at|in],
+     #a [in], @a[i], !a[i], external variables, rule references, with,
+     any / all / N of <set>, for <none|any|all|N> x in (lo..hi)), the emitted
+     code, run from any start state, ends normally with exactly the documented
+     verdict on top of the stack.  No fuel: the relational semantics only has
+     terminating runs (MachineProofs.bstep_exec gives the fuel). *)
+  Definition emit_correct_statement : Prop :=
+    forall e st, tyof [] 0 e = Some TBool -> start_ok st ->
+      exists st', bs (emit_condition e) st (ONormal st') /\
+                  s_stack st' = V32 (b2z (holds (env_of []) e)) :: s_stack st.
+
+  Theorem emit_correct : emit_correct_statement.
   Proof.
-    intros e st Fr Ht Hs.
+    intros e st Ht Hs.
     assert (HR0 : R [] 0 (env_of []) (set_stack st [])).
     { eapply R_keeps; [apply R_start; exact Hs | apply keeps_stack]. }
-    destruct (emit_ok1 e Fr [] 0%nat h0 F0 [] (set_stack st []) TBool Ht HR0 hspec_h0) as [Tv Hc].
+    destruct (emit_ok1 e (tyof_frag1 _ _ _ _ Ht) [] 0%nat h0 F0 [] (set_stack st []) TBool Ht HR0 hspec_h0) as [Tv Hc].
     pose proof (c_block_catch 0 h0 F0 st (emit [] 0 h0 e) _ Hc) as Blk.
     rewrite (or_false_bool _ Tv) in Blk. destruct Blk as [D _].
     destruct (D ltac:(discriminate)) as [st' [K [S C]]].
@@ -1592,25 +2444,16 @@ Section Correct.
     rewrite <- (app_nil_r [IBlock 1 (emit [] 0 h0 e)]). apply C. apply BNil.
   Qed.
 
-  (* the full statement: the same for every condition of the fragment of
-     Cond/Emit.v, i.e. including `for .. in` over ranges and `of` through
-     pat_range_match; proved so far for [frag1] (above) and evaluated on the
-     generated conditions of the whole fragment by K (Check.machine_agrees) *)
-  Definition emit_correct_statement : Prop :=
-    forall e st, tyof [] 0 e = Some TBool -> start_ok st ->
-      exists st', bs (emit_condition e) st (ONormal st') /\
-                  s_stack st' = V32 (b2z (holds (env_of []) e)) :: s_stack st.
-
   (* ... hence the executable semantics computes it for every sufficient
-     amount of fuel (out-of-fuel excluded by the statement) *)
+     amount of fuel *)
   Corollary run_condition_correct : forall e,
-    frag1 e = true -> tyof [] 0 e = Some TBool ->
+    tyof [] 0 e = Some TBool ->
     exists N, forall fuel, (N <= fuel)%nat ->
       run_condition data pm rules globals fuel e = Some (holds (env_of []) e).
   Proof.
-    intros e Fr Ht.
+    intros e Ht.
     assert (Hs : start_ok (init_state data)) by (split; [reflexivity | intros slot _; apply word_ok_0]).
-    destruct (emit_correct_partial e _ Fr Ht Hs) as [st' [B S]].
+    destruct (emit_correct e _ Ht Hs) as [st' [B S]].
     destruct (bstep_exec host _ _ _ B) as [N HN]. exists N. intros fuel Hf.
     unfold run_condition. rewrite (HN fuel Hf), S. cbn [init_state s_stack].
     destruct (holds (env_of []) e); reflexivity.
@@ -1618,25 +2461,25 @@ Section Correct.
 
   (* the emitted code never traps and never gets stuck *)
   Corollary emit_no_trap : forall e st o,
-    frag1 e = true -> tyof [] 0 e = Some TBool -> start_ok st ->
+    tyof [] 0 e = Some TBool -> start_ok st ->
     bs (emit_condition e) st o -> exists st', o = ONormal st'.
   Proof.
-    intros e st o Fr Ht Hs Ho. destruct (emit_correct_partial e st Fr Ht Hs) as [st' [B _]].
+    intros e st o Ht Hs Ho. destruct (emit_correct e st Ht Hs) as [st' [B _]].
     exists st'. exact (bstep_deterministic host _ _ _ _ Ho B).
   Qed.
 
   (* variables are written before they are read: whatever the variable area
      contains when a rule's code starts (left-overs of the rules evaluated
-     before), the verdict is the same *)
+     before, of other loops that used the same slots), the verdict is the same *)
   Corollary vars_written_before_read : forall e st1 st2 o1 o2,
-    frag1 e = true -> tyof [] 0 e = Some TBool -> start_ok st1 -> start_ok st2 ->
+    tyof [] 0 e = Some TBool -> start_ok st1 -> start_ok st2 ->
     s_stack st1 = [] -> s_stack st2 = [] ->
     bs (emit_condition e) st1 o1 -> bs (emit_condition e) st2 o2 ->
     exists a b, o1 = ONormal a /\ o2 = ONormal b /\ s_stack a = s_stack b.
   Proof.
-    intros e st1 st2 o1 o2 Fr Ht H1 H2 S1 S2 B1 B2.
-    destruct (emit_correct_partial e st1 Fr Ht H1) as [a [Ba Sa]].
-    destruct (emit_correct_partial e st2 Fr Ht H2) as [b [Bb Sb]].
+    intros e st1 st2 o1 o2 Ht H1 H2 S1 S2 B1 B2.
+    destruct (emit_correct e st1 Ht H1) as [a [Ba Sa]].
+    destruct (emit_correct e st2 Ht H2) as [b [Bb Sb]].
     exists a, b. split; [exact (bstep_deterministic host _ _ _ _ B1 Ba)|].
     split; [exact (bstep_deterministic host _ _ _ _ B2 Bb)|]. rewrite Sa, Sb, S1, S2. reflexivity.
   Qed.
@@ -1660,4 +2503,19 @@ Example frag1_of_example :
   frag1 e = true /\ tyof [] 0 e = Some TBool /\
   run_condition [97; 98; 99; 97; 98] (fun i => match i with 2%nat => [(3, 2)] | _ => [] end)
                 (fun _ => false) (fun _ => VUndef) 1000 e = Some true.
+Proof. vm_compute. repeat split. Qed.
+
+(* nested loops (the inner one reuses the slots above the outer frame, and is
+   re-initialised on every outer iteration), the arm of <expr>; an inverted
+   range and an undefined bound make the loop false whatever the quantifier *)
+Example frag1_loop_example :
+  let inner := EForRange QAny (EInt 0) 1%nat (EVar 0%nat) (EArith Add (EVar 0%nat) (EInt 1))
+                 (ECmp Eq (ERead (IK 1 false false) (EVar 1%nat)) (EInt 97)) in
+  let e := EForRange QExpr (EInt 2) 0%nat (EInt 0) (EArith Sub EFilesize (EInt 3)) inner in
+  let inverted := EForRange QAll (EInt 0) 0%nat (EInt 5) (EInt 3) (EBool true) in
+  let undefined_bound := EForRange QNone (EInt 0) 0%nat (EInt 0) (ERead (IK 1 false false) (EInt 99)) (EBool false) in
+  tyof [] 0 e = Some TBool /\ tyof [] 0 inverted = Some TBool /\ tyof [] 0 undefined_bound = Some TBool /\
+  run_condition [97; 98; 99; 97; 98] (fun _ => []) (fun _ => false) (fun _ => VUndef) 5000 e = Some true /\
+  run_condition [97; 98; 99; 97; 98] (fun _ => []) (fun _ => false) (fun _ => VUndef) 5000 inverted = Some false /\
+  run_condition [97; 98; 99; 97; 98] (fun _ => []) (fun _ => false) (fun _ => VUndef) 5000 undefined_bound = Some false.
 Proof. vm_compute. repeat split. Qed.
